@@ -22,7 +22,7 @@ CFG = {
                      "the external sixel decoder (go-sixel) is a parameter: safety of the DCS arm is proved under the hypothesis DecoderTame "
                      "(no panic / unbounded allocation / unbounded loop on a payload that sixelTooLarge lets through), which the C05 stream "
                      "checks on the real library on every generated payload (counter dcs:DECODER-CRASH-WITHIN-LIMIT, note hypothesis_violations)",
-                     "Go int is modelled by unbounded Int: proved sound for 40 of the 73 translated bodies (print() and resize() included) (Props/C05Overflow range_<fn>: every +/- "
+                     "Go int is modelled by unbounded Int: proved sound for 42 of the 73 translated bodies (round 5: + the arguments of the cursor-position report, range_csi_arm_6e, and decrqm) (print() and resize() included) (Props/C05Overflow range_<fn>: every +/- "
                      "stays within 2^62 on every good state with parameters clamped to 0..65535; round 4: range_cht, range_cbt for EVERY state and tab-stop list — "
                      "the counter of the walk stays within 0..ps; range_print: print() on every good state (insert mode on or off) with glyph width <= 65535, across the wrap's vt.nel() call and the insert-mode shift loop); "
                      "range_resize: resize() through rangeR = rangeS + the function-level loops, the allocation statements, the saved-cursor clamp and printCell, for every good old state with stored cell widths <= 65535 and every new size 1..65535); "
@@ -38,8 +38,9 @@ CFG = {
                      "mode reset), the DEC-special translation and single shift of print, screen allocation and saved-cursor clamp of resize",
                      "dispatchers: csi()/esc()/c0() = regenerated table (label, callee, how the parameters are passed) composed with the regenerated "
                      "body of the callee or of the inline arm (csi_is_generated, esc_is_generated, c0_is_generated); since round 4 EVERY arm has a translated body "
-                     "(csi_arms_all_translated ...): the reply-only arms DA1/DA2/DSR (Stmt.reply = builds or writes a reply, no effect on the emulator state; the reply "
-                     "TEXT is not modelled here — C12 models it), the empty arms CSI $ p / ESC # 8, BEL (one event), the statements of csi() in front of its switch "
+                     "(csi_arms_all_translated ...): the reply-only arms DA1/DA2/DSR (Stmt.reply = builds or writes a reply, no effect on the emulator state; since round 5 the reply "
+                     "TEXT is carried by Stmt.reply (literals, %d formats, int arguments, regenerated) and Props/C05Replies proves the bytes the translated DA1/DA2/DSR/DECRQM bodies write equal to "
+                     "C12's literals (Gen/TermReplies.lean) and to C12's reply model on the wire (replies_are_translated); osc() 11's answer is Reply.opaque: text not carried), the empty arms CSI $ p / ESC # 8, BEL (one event), the statements of csi() in front of its switch "
                      "(body_csi_pre = clampParams for every list) and update() (its type switch as the regenerated table updateArms: update_is_generated, update_shape)",
                      "Draw: the translated body (Gen/TermDraw.lean, language Model/EmuDrawLang.lean) is the model drawG for all states and window sizes (body_Draw); "
                      "conventions of evalDraw: the row loop reads its bound at entry, the column loop gets fuel = width (running out = Panic.hang, unreachable by draw_clipped); "
@@ -59,7 +60,7 @@ CFG = {
                   "schedule (events_never_stall_current; translated_loop_never_stalls for the loop as translated from the source). The model functions ARE the Go bodies: for ALL control functions — 73 translated bodies (all of csi.go, c0.go, "
                   "esc.go incl. decsc/decrc/ris, mode.go sm/rm/decset/decrst/decrqm with every arm, sgr(), osc(), print, resize incl. the reflow loop "
                   "nest, scrollUp/Down) the body translated from the source on every run evaluates to the model function for all states and all "
-                  "parameter lists / payloads (body_<fn>); since round 4 also the arms that only answer the child or are empty, BEL, the parameter clamp of csi() (body_csi_pre), update() (update_is_generated), Draw (body_Draw: the translated body is the model the clipping theorems are about) and the PTY goroutine's loop (loop_is_generated). A resize leaves the pen alone (resize_preserves_pen, resize_frame; F112c repaired). The "
+                  "parameter lists / payloads (body_<fn>); since round 4 also the arms that only answer the child or are empty, BEL, the parameter clamp of csi() (body_csi_pre), update() (update_is_generated), Draw (body_Draw: the translated body is the model the clipping theorems are about) and the PTY goroutine's loop (loop_is_generated). A resize leaves the pen alone (resize_preserves_pen, resize_frame; F112c repaired). Round 5: the replies of the translated DA1/DA2/DSR/DECRQM bodies are, byte for byte, the literals C12 pins and what C12's reply model renders (Props/C05Replies: reply_da1, reply_da2, reply_dsr, reply_decrqm for every mode number, replies_are_translated). The "
                   "statement was false before the repairs F15-F20, F105a-i: Witness/F*.lean prove it from concrete inputs.",
     "level_note": "Proved (all inputs, all sizes, all histories, all schedules): safety + invariant for the model; Draw clipping; event loop "
                   "deadlock-freedom; model function = translated Go body for all 73 bodies (51 functions + the 21 arms of the dispatchers + the statements of csi() in front of its switch), update(), Draw and the goroutine loop: no transcription-only residue in widgets/term's dispatch path (Gen/TermBodies.lean, Gen/TermDraw.lean, Gen/TermLoop.lean "
@@ -68,7 +69,7 @@ CFG = {
                   "clamps and LastColOk across a resize for every old state (resize_frame). Also tied by Gen/TermModes.lean (dispatch labels with their callee, mode tables, sgr labels, attribute bits, tab stops, "
                   "event channel, loop shape, DCS guards and size limit) and by the correspondence check (snapshot after every op, real DCS/OSC "
                   "payloads). Validated by correspondence only: nothing of the control functions' bodies (the dispatch skeleton goes through generated "
-                  "tables); the pinned primitives listed in the trusted base. Hypotheses checked at run time: Width >= 0, CSI parameters non-empty, sixel decoder tame within the size limit.",
+                  "tables); the pinned primitives listed in the trusted base. Hypotheses checked at run time: Width >= 0, CSI parameters non-empty, sixel decoder tame within the size limit. Not judged (recorded in notes/C05.md, round 5): DSR 6 in the pending-wrap state reports column width+1 (a VT/xterm reports the last column) — outside C06's text (deferred-wrap state unconstrained; DSR not in its vocabulary) and unreachable in C12's start-up exchange (CSI H precedes the request); the reply bytes are tied by theorems, not compared with the real code in the C05 stream (C12's stream does that).",
     "technique": "Lean 4 proof (invariant + per-operation safety lemmas + induction over histories; LTS invariant for the event loop)",
     "timeout": 1500,
 }
